@@ -187,7 +187,7 @@ def _run_shard(args):
     # model-guided scripts: an environment step of the model that the real client does not enable
     with open(trace) as f:
         ndiv = sum(1 for l in f if '"e":"diverged"' in l)
-    if "/model-" in trace and ndiv:
+    if ("/model-" in trace or "/modelrecv-" in trace) and ndiv:
         dev.append((0, 0, "model-step-not-enabled-in-the-client:%d" % ndiv))
     m = re.search(r"simrun: (\d+) scenarios, (\d+) events", out)
     return dict(ok=True, viol=viol, dev=dev, states=st[0], scen=int(m.group(1)) if m else 0, events=int(m.group(2)) if m else 0)
